@@ -672,7 +672,13 @@ def visit (h : Heap) : Nat → List Ref → List Ref → Option (List Ref)
       if c.isAtom || seen.contains x then visit h fuel todo seen
       else visit h fuel (c.kids ++ todo) (seen ++ [x])
 
-def visitFuel (h : Heap) : Nat := h.foldl (fun a c => a + c.kids.length) 2
+def kidsLen (h : Heap) (i : Nat) : Nat :=
+  match h[i]? with
+  | some c => c.kids.length
+  | none => 0
+
+/-- enough for every heap (`PepperProofs/Pickle.lean: visit_fuel`): one step per stack entry, at most one push per kid -/
+def visitFuel (h : Heap) : Nat := 2 + ((List.range h.size).map (kidsLen h)).sum
 
 /-- the non-atomic cells reachable from `r`, in first-visit order -/
 def reach (h : Heap) (r : Ref) : Option (List Ref) := visit h (visitFuel h) [r] []
